@@ -322,6 +322,102 @@ fn viol(kind: &str, src: &str, ctx: &str, expected: String, actual: String) -> V
     }
 }
 
+/// Histories of context-free calls on one thread: whatever was evaluated before (successfully or not),
+/// a context-free form behaves as evaluation in a fresh, discarded HashMapContext.
+fn context_free_histories(depth: usize) -> Stats {
+    let pool: Vec<&'static str> = vec![
+        "a = 1",
+        "a = 1.5",
+        "a = \"s\"",
+        "a = 1 ; f",
+        "a = 1 , f",
+        "a = 1.5 ; 1 + true",
+        "a = true ; a = 1",
+        "b = ( a = 2 ; a ) ; f ( )",
+        "a",
+        "a + 1",
+        "a = a",
+        "a += 1",
+        "b",
+        "f",
+        "f ( 1 )",
+        "1",
+        "( 1 , a )",
+        "a ; 1",
+        "1 +",
+        "\"s\" + a",
+        "!",
+    ];
+    let n = pool.len();
+    let total = (n as u64).pow(depth as u32);
+    par_chunks(total, 64, |r| {
+        let mut st = Stats::new();
+        for code in r {
+            let mut c = code;
+            let hist: Vec<&'static str> = (0..depth)
+                .map(|_| {
+                    let s = pool[(c % n as u64) as usize];
+                    c /= n as u64;
+                    s
+                })
+                .collect();
+            let (last, before) = hist.split_last().unwrap();
+            let r = guarded(|| {
+                for s in before {
+                    let _ = eval(s);
+                    if let Ok(t) = build_operator_tree::<DefaultNumericTypes>(s) {
+                        let _ = t.eval_int();
+                    }
+                }
+                let mut got: Vec<(String, String)> = Vec::new();
+                got.push(("eval".into(), canon(&eval(last))));
+                got.push(("eval_string".into(), canon(&eval_string(last))));
+                got.push(("eval_int".into(), canon(&eval_int(last))));
+                got.push(("eval_float".into(), canon(&eval_float(last))));
+                got.push(("eval_number".into(), canon(&eval_number(last))));
+                got.push(("eval_boolean".into(), canon(&eval_boolean(last))));
+                got.push(("eval_tuple".into(), canon(&eval_tuple(last))));
+                got.push(("eval_empty".into(), canon(&eval_empty(last))));
+                if let Ok(t) = build_operator_tree::<DefaultNumericTypes>(last) {
+                    got.push(("Node::eval".into(), canon(&t.eval())));
+                    got.push(("Node::eval_int".into(), canon(&t.eval_int())));
+                    got.push(("Node::eval_tuple".into(), canon(&t.eval_tuple())));
+                }
+                got
+            });
+            st.evaluations += 11 + 2 * before.len() as u64;
+            st.count("context-free-histories");
+            st.states += 1;
+            let got = match r {
+                Ok(g) => g,
+                Err(p) => {
+                    st.violation(viol("panic", last, &format!("after {:?}", before), "Ok or Err".into(), format!("panic at {}: {}", p.location, p.message)));
+                    continue;
+                },
+            };
+            let fresh = eval_with_context_mut(last, &mut HCtx::new());
+            let want: std::collections::BTreeMap<&str, String> = projections(&fresh).into_iter().collect();
+            for (name, g) in &got {
+                let w = match name.as_str() {
+                    "eval" | "Node::eval" => canon(&fresh),
+                    other => want[other.trim_start_matches("Node::").trim_start_matches("eval_")].clone(),
+                };
+                if *g != w {
+                    st.violation(viol(
+                        "context-free-form-depends-on-history",
+                        last,
+                        &format!("context-free calls made before on the same thread: {:?}", before),
+                        format!("{} = {} (evaluation in a fresh HashMapContext)", name, w),
+                        g.clone(),
+                    ));
+                    break;
+                }
+            }
+        }
+        st
+    })
+}
+
 pub fn run(cfg: &Cfg) -> Report {
     let max = cfg.tier.pick(4, 5);
     let alpha = alphabet();
@@ -361,6 +457,7 @@ pub fn run(cfg: &Cfg) -> Report {
         });
         st
     });
+    stats.merge(context_free_histories(cfg.tier.pick(2, 3)));
     stats.transitions = stats.evaluations;
     for src in ["a = 1.5 ; a", "f ( 1 , true )", "1 + &", "( a , \"s\" )"] {
         stats.sample(json!({"source": src, "eval": format!("{:?}", eval(src)), "eval_number": format!("{:?}", eval_number(src)), "eval_tuple": format!("{:?}", eval_tuple(src))}));
@@ -373,7 +470,7 @@ pub fn run(cfg: &Cfg) -> Report {
     Report {
         property: ID,
         level: "model_checking",
-        rule: format!("every token sequence of length <= {max} over the {a}-token alphabet `1 1.5 \"s\" true a f ( ) , ; + = ! &` (well-formed or not; reaches all six result types and every error stage) x 10 contexts (fresh; a bound to each of the six types; user function f; builtins disabled) x all 24 string-level entry points (run twice) + the 24 Node methods + build_operator_tree; oracle: each typed result is the projection of the matching untyped result, `_mut` variants leave the same context, tree level = string level, context-free = fresh HashMapContext, precompile error passed through by all 48. States = sources, transitions = entry-point executions. Non-trivial = sources of >= 2 tokens (each enumerated once)"),
+        rule: format!("every token sequence of length <= {max} over the {a}-token alphabet `1 1.5 \"s\" true a f ( ) , ; + = ! &` (well-formed or not; reaches all six result types and every error stage) x 10 contexts (fresh; a bound to each of the six types; user function f; builtins disabled) x all 24 string-level entry points (run twice) + the 24 Node methods + build_operator_tree; oracle: each typed result is the projection of the matching untyped result, `_mut` variants leave the same context, tree level = string level, context-free = fresh HashMapContext, precompile error passed through by all 48; plus every history of 2 (quick) / 3 (thorough) context-free calls over a pool of 21 sources (assignments, assignments followed by a failure, reads, retypes) run back to back on one thread: the last call must behave as evaluation in a fresh context. States = sources, transitions = entry-point executions. Non-trivial = sources of >= 2 tokens (each enumerated once)"),
         nontrivial_set: "counter:nontrivial-distinct",
         exhaustive: true,
         bound_completed: format!("token sequences of length {max}"),
